@@ -239,12 +239,25 @@ func c11CheckOps(c c11OpsCase) h.Result {
 		return r.Fail("harness:oracle-disagreement", "triple: %s", desc()).Result()
 	}
 	r.Eval(2)
-	if got := np().TripleScalarMulBasepointVartime(t1, P, t2, C).IsIdentity(); got != wantID {
-		r.Fail("RistrettoPoint.TripleScalarMulBasepointVartime:wrong-decision", "%s t1=%x t2=%x C=%x/T8[%d] got identity=%v", desc(), []byte(c.T1), []byte(c.T2), []byte(c.C.A), c.C.J, got)
+	// the decision, and the result as a VALUE: a group element whichever way the
+	// decision goes (its encoding decodes under the reference; all zero exactly
+	// for the identity)
+	triple := func(name string, res *RistrettoPoint) {
+		if got := res.IsIdentity(); got != wantID {
+			r.Fail("RistrettoPoint."+name+":wrong-decision", "%s t1=%x t2=%x C=%x/T8[%d] got identity=%v", desc(), []byte(c.T1), []byte(c.T2), []byte(c.C.A), c.C.J, got)
+			return
+		}
+		enc, err := res.MarshalBinary()
+		if err != nil {
+			r.Fail("RistrettoPoint."+name+":result-does-not-encode", "%v", err)
+			return
+		}
+		if _, ok := ref.RistDecode(enc); !ok || bytes.Equal(enc, make([]byte, 32)) != wantID {
+			r.Fail("RistrettoPoint."+name+":malformed-result", "%s: result encodes as %x (decodes under the reference: %v, identity expected: %v)", desc(), enc, ok, wantID)
+		}
 	}
-	if got := np().ExpandedTripleScalarMulBasepointVartime(t1, eP, t2, C).IsIdentity(); got != wantID {
-		r.Fail("RistrettoPoint.ExpandedTripleScalarMulBasepointVartime:wrong-decision", "%s t1=%x t2=%x C=%x/T8[%d] got identity=%v", desc(), []byte(c.T1), []byte(c.T2), []byte(c.C.A), c.C.J, got)
-	}
+	triple("TripleScalarMulBasepointVartime", np().TripleScalarMulBasepointVartime(t1, P, t2, C))
+	triple("ExpandedTripleScalarMulBasepointVartime", np().ExpandedTripleScalarMulBasepointVartime(t1, eP, t2, C))
 
 	// --- multiscalar wrappers and Sum
 	n := len(c.Terms)
